@@ -9,8 +9,12 @@ A layer description is plain JSON:
          | {"k": "val", "bl": 8|16|24}                    VALUE
          | {"k": "nrc", "vals": [int], "bl": 8}           NRC-CONST
          | {"k": "res", "bl": 8}                          RESERVED
-All parameters are byte aligned and have no explicit position (envelope of the model: a constant parameter
-contributes the bytes it encodes to on its own).
+Coding attributes of cc / pc / val / nrc (all optional): "bo": "lh" (IS-HIGHLOW-BYTE-ORDER="false": least significant byte
+first) | "hl" (the attribute spelled out as "true"); "t": "i" (A_INT32, two's complement; "v" may be negative); "bl" up to 32.
+Unless stated otherwise all parameters are byte aligned and have no explicit position (envelope of the model: a constant
+parameter contributes the bytes it encodes to on its own).  Position attributes (layers of the family
+`enum-positioned-constant` only, evaluated by the model-free oracles): "bp": BYTE-POSITION, "bit": BIT-POSITION (then
+bit + bl <= 8).  `const_bytes`, `layout`, `desc_prefix` say, from the description alone, which bytes end up on the wire.
 
 Layers with parents (value inheritance): a description may carry
   "base": DESCRIPTION (of the parent layer, which may have a "base" itself; at most three levels),
@@ -26,34 +30,51 @@ XSI = 'xmlns:xsi="http://www.w3.org/2001/XMLSchema-instance"'
 
 
 # ---------------------------------------------------------------- XML
-def _dct(bl):
-    return (f'<DIAG-CODED-TYPE BASE-DATA-TYPE="A_UINT32" xsi:type="STANDARD-LENGTH-TYPE">'
+def _btype(p):
+    return "A_INT32" if p.get("t") == "i" else "A_UINT32"
+
+
+def _dct(bl, p=None):
+    p = p or {}
+    bo = {"lh": ' IS-HIGHLOW-BYTE-ORDER="false"', "hl": ' IS-HIGHLOW-BYTE-ORDER="true"'}.get(p.get("bo"), "")
+    return (f'<DIAG-CODED-TYPE BASE-DATA-TYPE="{_btype(p)}"{bo} xsi:type="STANDARD-LENGTH-TYPE">'
             f'<BIT-LENGTH>{bl}</BIT-LENGTH></DIAG-CODED-TYPE>')
 
 
-def _dop(bl):
-    return (f'<DATA-OBJECT-PROP ID="u{bl}"><SHORT-NAME>u{bl}</SHORT-NAME><COMPU-METHOD><CATEGORY>IDENTICAL</CATEGORY>'
-            f'</COMPU-METHOD>{_dct(bl)}<PHYSICAL-TYPE BASE-DATA-TYPE="A_UINT32"/></DATA-OBJECT-PROP>')
+def _dop_id(p):
+    """the data object property a PHYS-CONST / VALUE refers to: one per (bit length, byte order, base type)"""
+    return f'u{p["bl"]}' + {"lh": "l", "hl": "h"}.get(p.get("bo"), "") + ("i" if p.get("t") == "i" else "")
+
+
+def _dop(bl, p=None):
+    p = dict(p or {}, bl=bl)
+    return (f'<DATA-OBJECT-PROP ID="{_dop_id(p)}"><SHORT-NAME>{_dop_id(p)}</SHORT-NAME><COMPU-METHOD><CATEGORY>IDENTICAL</CATEGORY>'
+            f'</COMPU-METHOD>{_dct(bl, p)}<PHYSICAL-TYPE BASE-DATA-TYPE="{_btype(p)}"/></DATA-OBJECT-PROP>')
+
+
+def _pos(p):
+    return ((f'<BYTE-POSITION>{p["bp"]}</BYTE-POSITION>' if "bp" in p else "")
+            + (f'<BIT-POSITION>{p["bit"]}</BIT-POSITION>' if "bit" in p else ""))
 
 
 def _param(i, p):
     n = f"p{i}"
     k = p["k"]
     if k == "cc":
-        return (f'<PARAM xsi:type="CODED-CONST"><SHORT-NAME>{n}</SHORT-NAME><CODED-VALUE>{p["v"]}</CODED-VALUE>'
-                f'{_dct(p["bl"])}</PARAM>')
+        return (f'<PARAM xsi:type="CODED-CONST"><SHORT-NAME>{n}</SHORT-NAME>{_pos(p)}<CODED-VALUE>{p["v"]}</CODED-VALUE>'
+                f'{_dct(p["bl"], p)}</PARAM>')
     if k == "pc":
-        return (f'<PARAM xsi:type="PHYS-CONST"><SHORT-NAME>{n}</SHORT-NAME><PHYS-CONSTANT-VALUE>{p["v"]}'
-                f'</PHYS-CONSTANT-VALUE><DOP-REF ID-REF="u{p["bl"]}"/></PARAM>')
+        return (f'<PARAM xsi:type="PHYS-CONST"><SHORT-NAME>{n}</SHORT-NAME>{_pos(p)}<PHYS-CONSTANT-VALUE>{p["v"]}'
+                f'</PHYS-CONSTANT-VALUE><DOP-REF ID-REF="{_dop_id(p)}"/></PARAM>')
     if k == "mr":
         return (f'<PARAM xsi:type="MATCHING-REQUEST-PARAM"><SHORT-NAME>{n}</SHORT-NAME>'
                 f'<REQUEST-BYTE-POS>{p["pos"]}</REQUEST-BYTE-POS><BYTE-LENGTH>{p["len"]}</BYTE-LENGTH></PARAM>')
     if k == "val":
-        return f'<PARAM xsi:type="VALUE"><SHORT-NAME>{n}</SHORT-NAME><DOP-REF ID-REF="u{p["bl"]}"/></PARAM>'
+        return f'<PARAM xsi:type="VALUE"><SHORT-NAME>{n}</SHORT-NAME>{_pos(p)}<DOP-REF ID-REF="{_dop_id(p)}"/></PARAM>'
     if k == "nrc":
         vs = "".join(f"<CODED-VALUE>{v}</CODED-VALUE>" for v in p["vals"])
         return (f'<PARAM xsi:type="NRC-CONST"><SHORT-NAME>{n}</SHORT-NAME><CODED-VALUES>{vs}</CODED-VALUES>'
-                f'{_dct(p["bl"])}</PARAM>')
+                f'{_dct(p["bl"], p)}</PARAM>')
     if k == "res":
         return f'<PARAM xsi:type="RESERVED"><SHORT-NAME>{n}</SHORT-NAME><BIT-LENGTH>{p["bl"]}</BIT-LENGTH></PARAM>'
     raise ValueError(k)
@@ -106,7 +127,8 @@ def _layer_xml(lname, kind, d, parent, with_dops, qualify):
                     + (f"<NEG-RESPONSE-REFS>{nr}</NEG-RESPONSE-REFS>" if nr else "") + "</DIAG-SERVICE>")
     gn = "".join(_coding("GLOBAL-NEG-RESPONSE", c, q(c["name"])) for c in d["gnrs"])
     ddds = ('<DIAG-DATA-DICTIONARY-SPEC><DATA-OBJECT-PROPS>' + _dop(8) + _dop(16) + _dop(24)
-            + '</DATA-OBJECT-PROPS></DIAG-DATA-DICTIONARY-SPEC>') if with_dops else ""
+            + "".join(_dop(x["bl"], x) for x in (with_dops if isinstance(with_dops, list) else []))
+            + '</DATA-OBJECT-PROPS></DIAG-DATA-DICTIONARY-SPEC>') if with_dops is not False else ""
     prefs = ""
     if parent is not None:
         pname, pkind = parent
@@ -122,13 +144,31 @@ def _layer_xml(lname, kind, d, parent, with_dops, qualify):
             + (f'<GLOBAL-NEG-RESPONSES>{gn}</GLOBAL-NEG-RESPONSES>' if gn else "") + prefs + f'</{kind}>')
 
 
+def _extra_dops(layers):
+    """the data object properties beyond u8 / u16 / u24 which the PHYS-CONST / VALUE parameters of the description refer to"""
+    out = {}
+    for _, _, d in layers:
+        for s in d["services"]:
+            for c in [s["req"]] + s["pos"] + s["neg"]:
+                if not isinstance(c, str):
+                    for p in c["params"]:
+                        if p["k"] in ("pc", "val") and _dop_id(p) not in ("u8", "u16", "u24"):
+                            out[_dop_id(p)] = {k: p[k] for k in ("bl", "bo", "t") if k in p}
+        for c in d["gnrs"]:
+            for p in c["params"]:
+                if p["k"] in ("pc", "val") and _dop_id(p) not in ("u8", "u16", "u24"):
+                    out[_dop_id(p)] = {k: p[k] for k in ("bl", "bo", "t") if k in p}
+    return [out[k] for k in sorted(out)]
+
+
 def to_xml(desc):
     layers = chain(desc)
     flat = len(layers) == 1
     groups = {}
     for i, (lname, kind, d) in enumerate(layers):
         parent = (layers[i + 1][0], layers[i + 1][1]) if i + 1 < len(layers) else None
-        groups[kind] = _layer_xml(lname, kind, d, parent, with_dops=(i == len(layers) - 1), qualify=not flat)
+        groups[kind] = _layer_xml(lname, kind, d, parent, with_dops=_extra_dops(layers) if i == len(layers) - 1 else False,
+                                  qualify=not flat)
     body = "".join(f"<{k}S>{groups[k]}</{k}S>" for k in ("FUNCTIONAL-GROUP", "BASE-VARIANT", "ECU-VARIANT") if k in groups)
     return (f'<?xml version="1.0"?><ODX MODEL-VERSION="2.2.0" {XSI}><DIAG-LAYER-CONTAINER ID="c">'
             f'<SHORT-NAME>c</SHORT-NAME>{body}</DIAG-LAYER-CONTAINER></ODX>')
@@ -149,35 +189,73 @@ def load_layer(desc):
 
 
 # ---------------------------------------------------------------- generator
-def plain_bytes(c, req_bytes=b"", rng=None, nrc_pick=0):
-    """an encoding of coding object `c` written down directly from the description (independent of the
-    encoder): constants, echoed request bytes, values (random / zero), one of the NRC values"""
-    out = b""
-    for p in c["params"]:
+def const_bytes(p, v=None):
+    """the bytes an integer of p's coding (bit length, byte order, two's complement for A_INT32) occupies on the wire, written
+    down from the description (whole bytes; default value: the constant's)"""
+    n = p["bl"] // 8
+    v = (p["v"] if v is None else v) % (1 << p["bl"])
+    return v.to_bytes(n, "little" if p.get("bo") == "lh" else "big")
+
+
+def layout(params, req_bytes=b"", rng=None, nrc_pick=0, stop=None):
+    """(bytes, mask) of the PDU the parameters describe, written down directly from the description (independent of the
+    encoder): every parameter starts at its BYTE-POSITION if it has one, else behind the preceding parameter; constants, echoed
+    request bytes, values (random / zero), one of the NRC values; mask: the bits which were written.
+    stop(p) → True ends the layout before parameter p (constant prefixes)."""
+    buf, mask, cur = bytearray(), bytearray(), 0
+    for p in params:
+        if stop is not None and stop(p):
+            break
         k = p["k"]
-        if k in ("cc", "pc"):
-            out += p["v"].to_bytes(p["bl"] // 8, "big")
-        elif k == "mr":
-            seg = req_bytes[p["pos"]:p["pos"] + p["len"]]
-            out += seg + bytes(p["len"] - len(seg))
-        elif k == "val":
-            n = p["bl"] // 8
-            out += bytes(rng.getrandbits(8) for _ in range(n)) if rng else bytes(n)
-        elif k == "nrc":
-            out += p["vals"][nrc_pick % len(p["vals"])].to_bytes(p["bl"] // 8, "big")
+        pos, bit = p.get("bp", cur), p.get("bit", 0)
+        if k == "mr":
+            seg = bytes(req_bytes[p["pos"]:p["pos"] + p["len"]])
+            data, m = seg + bytes(p["len"] - len(seg)), b"\xff" * p["len"]
+        elif p["bl"] % 8 or bit:                                       # inside one byte (bit + bl <= 8)
+            v = p["v"] if k in ("cc", "pc") else (rng.getrandbits(p["bl"]) if rng and k == "val" else 0)
+            data, m = bytes([(v % (1 << p["bl"])) << bit]), bytes([((1 << p["bl"]) - 1) << bit])
         else:
-            out += bytes(p["bl"] // 8)
-    return out
+            n = p["bl"] // 8
+            if k in ("cc", "pc"):
+                data = const_bytes(p)
+            elif k == "val":
+                data = bytes(rng.getrandbits(8) for _ in range(n)) if rng else bytes(n)
+            elif k == "nrc":
+                data = const_bytes(p, p["vals"][nrc_pick % len(p["vals"])])
+            else:
+                data = bytes(n)
+            m = b"\xff" * n
+        if len(buf) < pos + len(data):
+            buf += bytes(pos + len(data) - len(buf))
+            mask += bytes(len(buf) - len(mask))
+        for i, (b, mb) in enumerate(zip(data, m)):
+            buf[pos + i] |= b
+            mask[pos + i] |= mb
+        cur = pos + len(data)
+    return bytes(buf), bytes(mask)
+
+
+def plain_bytes(c, req_bytes=b"", rng=None, nrc_pick=0):
+    """an encoding of coding object `c` written down directly from the description (independent of the encoder)"""
+    return layout(c["params"], req_bytes, rng, nrc_pick)[0]
+
+
+def desc_prefix(params, req_prefix=b""):
+    """the constant prefix of a coding object, read off the description alone: the leading bytes which are completely
+    determined by the leading run of CODED-CONST / PHYS-CONST parameters (and of MATCHING-REQUEST-PARAMs which echo bytes lying
+    inside the constant prefix of the request) — whatever their byte order, base type, listing order and positions"""
+    stop = lambda p: not (p["k"] in ("cc", "pc") or (p["k"] == "mr" and p["pos"] + p["len"] <= len(req_prefix)))
+    buf, mask = layout(params, req_prefix, stop=stop)
+    n = 0
+    while n < len(buf) and mask[n] == 0xFF:
+        n += 1
+    return buf[:n]
 
 
 def const_run(params):
-    """bytes of the leading cc/pc run of a description (generator-side only: alphabet, nesting)"""
-    out = b""
-    for p in params:
-        if p["k"] not in ("cc", "pc"):
-            break
-        out += p["v"].to_bytes(p["bl"] // 8, "big")
-    return out
+    """bytes of the leading cc/pc run of a description"""
+    stop = lambda p: p["k"] not in ("cc", "pc")
+    return layout(params, stop=stop)[0]
 
 
 SIDS = [0x22, 0x2E, 0x31, 0x10, 0x19]
@@ -185,12 +263,24 @@ SUBS = [0x01, 0x02, 0xF1, 0x22, 0x00]
 
 
 def _consts(rng, bs, phys_ok=True):
-    """constant parameters producing the byte string bs (8/16/24 bit pieces, some as PHYS-CONST)"""
+    """constant parameters producing the byte string bs: 8/16/24/32 bit pieces, some as PHYS-CONST, in either byte order
+    (IS-HIGHLOW-BYTE-ORDER absent / "true" / "false"), unsigned or two's complement (A_INT32; negative when the most
+    significant byte has its top bit set)"""
     out, i = [], 0
     while i < len(bs):
-        n = min(len(bs) - i, rng.choice([1, 1, 1, 2, 3]))
+        n = min(len(bs) - i, rng.choice([1, 1, 1, 2, 2, 3, 4]))
         kind = "pc" if phys_ok and rng.random() < 0.15 else "cc"
-        out.append({"k": kind, "v": int.from_bytes(bs[i:i + n], "big"), "bl": 8 * n})
+        p = {"k": kind, "bl": 8 * n}
+        r = rng.random()
+        if r < (0.4 if n > 1 else 0.1):
+            p["bo"] = "lh"
+        elif r > 0.85:
+            p["bo"] = "hl"
+        signed = rng.random() < 0.15
+        if signed:
+            p["t"] = "i"
+        p["v"] = int.from_bytes(bs[i:i + n], "little" if p.get("bo") == "lh" else "big", signed=signed)
+        out.append(p)
         i += n
     return out
 
@@ -271,7 +361,10 @@ def gen_layer(rng, tag="", nsvc=None, ngnr=None, seed_prefixes=()):
                 ps.append({"k": "mr", "pos": 0, "len": 1})
             else:
                 ps.append({"k": "val", "bl": 8})
-            ps.append({"k": "nrc", "vals": vals, "bl": 8})
+            if rng.random() < 0.12:        # 16 bit alternatives, least significant byte first: 0x1031 is `31 10` on the wire
+                ps.append({"k": "nrc", "vals": [0x1000 | v if j % 2 else v << 8 | 0x10 for j, v in enumerate(vals)], "bl": 16, "bo": "lh"})
+            else:
+                ps.append({"k": "nrc", "vals": vals, "bl": 8})
             if rng.random() < 0.2:
                 ps.append({"k": "val", "bl": 8})
             return coding("nr", ps)
@@ -353,6 +446,191 @@ def gen_hier_layer(rng):
     return desc
 
 
+# ---------------------------------------------------------------- enumerated small-scope families
+def _spell(wire, kind="cc", bo=None, t=None, **pos):
+    """the constant parameter of the given coding whose wire bytes are `wire`"""
+    p = {"k": kind, "bl": 8 * len(wire)}
+    if bo:
+        p["bo"] = bo
+    if t:
+        p["t"] = t
+    p["v"] = int.from_bytes(wire, "little" if bo == "lh" else "big", signed=(t == "i"))
+    p.update(pos)
+    return p
+
+
+def _enum_service(name, lead, wire, style=None, tail_bp=None):
+    """a service whose request starts with the constant parameters `lead` (wire bytes `wire`) followed by one VALUE byte; a
+    positive response `wire[0]+0x40 wire[1:2] <echo of the value> value` whose leading constant is spelled in the same coding
+    (`style`) as the request's, and a negative response `7F <echo of the first request byte> NRC`"""
+    val = {"k": "val", "bl": 8}
+    if tail_bp is not None:
+        val["bp"] = tail_bp
+    rwire = bytes([(wire[0] + 0x40) & 0xFF]) + wire[1:2]
+    st = style or {}
+    return {"name": name, "req": {"name": "rq" + name, "params": lead + [val]},
+            "pos": [{"name": "pr" + name, "params": [_spell(rwire, st.get("k", "cc"), st.get("bo"), st.get("t")),
+                                                     {"k": "mr", "pos": len(wire), "len": 1}, {"k": "val", "bl": 8}]}],
+            "neg": [{"name": "nr" + name, "params": [{"k": "cc", "v": 0x7F, "bl": 8}, {"k": "mr", "pos": 0, "len": 1},
+                                                     {"k": "nrc", "vals": [0x11, 0x31], "bl": 8}]}]}
+
+
+ENUM_GNR = {"name": "gn", "params": [{"k": "cc", "v": 0x7F, "bl": 8}, {"k": "mr", "pos": 0, "len": 1}, {"k": "val", "bl": 8}]}
+
+
+def enum_leading_constant(big, rng):
+    """family `enum-leading-constant` (inside the model's envelope): EVERY coding of the constant a request starts with —
+    length 8/16/24/32 bit x CODED-CONST / PHYS-CONST x byte order absent / "true" / "false" x A_UINT32 / A_INT32 x byte
+    patterns (ascending distinct bytes, top bit in the first / in the last wire byte, all bytes equal), the 16 bit ones also with
+    BYTE-POSITION / BIT-POSITION spelled out as 0 — followed by nothing / a 16 bit constant in the other byte order (thorough: /
+    an 8 bit constant / a 16 bit PHYS-CONST low-high / a 24 bit constant low-high).  The requests are distributed over
+    layers of five services (shuffled, so that different codings of the same wire prefix meet in one layer), each layer with
+    a global negative response.  → [(description, {service name: (wire prefix, length of the first constant)})]"""
+    reqs = []
+    for n in (1, 2, 3, 4):
+        asc = bytes([0x22, 0x01, 0xF1, 0x03][:n])
+        pats = {asc, bytes([0xA2]) + asc[1:], asc[:-1] + bytes([asc[-1] | 0x80])}
+        if n > 1:
+            pats.add(bytes([0x2E] * n))
+        for wire in sorted(pats):
+            for kind in ("cc", "pc"):
+                for bo in (None, "hl", "lh"):
+                    for t in (None, "i"):
+                        poss = [{}]
+                        if n == 2 and kind == "cc" and t is None:
+                            poss += [{"bp": 0}, {"bit": 0}, {"bp": 0, "bit": 0}]
+                        for pos in poss:
+                            seconds = [None, b"\x05", b"\x05\x06"] + ([b"\x07\x08", b"\x05\x06\x09"] if big else [])
+                            if not big:
+                                del seconds[1]
+                            for j, sec in enumerate(seconds):
+                                lead = [_spell(wire, kind, bo, t, **pos)]
+                                w = wire
+                                if sec is not None:
+                                    lead.append(_spell(sec, "pc" if sec == b"\x07\x08" else "cc",
+                                                       "lh" if (bo != "lh" or len(sec) > 2 or sec == b"\x07\x08") and len(sec) > 1 else None))
+                                    w = wire + sec
+                                reqs.append((lead, w, {"k": kind, "bo": bo, "t": t}, n))
+    rng.shuffle(reqs)
+    out = []
+    for i in range(0, len(reqs), 5):
+        svcs, meta = [], {}
+        for j, (lead, w, st, n) in enumerate(reqs[i:i + 5]):
+            name = f"E{i + j}"
+            svcs.append(_enum_service(name, lead, w, st))
+            meta[name] = (w, n)
+        out.append(({"services": svcs, "gnrs": [ENUM_GNR]}, meta))
+    return out
+
+
+def enum_positioned_constant(big, rng):
+    """family `enum-positioned-constant` (OUTSIDE the model's envelope; description-level oracles only): the first byte(s)
+    of a request assembled from constants with BIT-POSITION / BYTE-POSITION in every listing order —
+      * the first byte as two nibbles (CODED-CONST / PHYS-CONST each) and as 3 + 4 + 1 bits, every listing order;
+      * a constant nibble next to a VALUE nibble (the first byte is NOT constant: no constant prefix, group None), both ways;
+      * whole-byte constants at explicit BYTE-POSITIONs: `22 F1` listed in wire order and reversed, positions explicit or
+        implicit, 16 bit constants of either byte order at BYTE-POSITION 0 behind / before an 8 bit one, a constant behind a
+        gap which a later VALUE fills (only the bytes before the gap are the constant prefix).
+    Each layer: three such services + two plain ones sharing the first byte / differing in it.
+    → [(description, {service name: (wire prefix of the leading constants, 0)})]"""
+    import itertools
+    reqs = []        # (leading + tail parameters, wire bytes of one encoding's constant part)
+    hi = lambda k: {"k": k, "v": 2, "bl": 4, "bit": 4, "bp": 0}
+    lo = lambda k, v=2: {"k": k, "v": v, "bl": 4, "bit": 0, "bp": 0}
+    for k1 in ("cc", "pc"):
+        for k2 in ("cc", "pc"):
+            for order in (0, 1):
+                a, b = hi(k1), lo(k2)
+                lead = [a, b] if order == 0 else [b, a]
+                lead = [dict(lead[0]), dict(lead[1])]
+                if rng.random() < 0.5:
+                    del lead[0]["bp"]                       # the first listed parameter needs no BYTE-POSITION
+                reqs.append((lead + [{"k": "cc", "v": 0xF1, "bl": 8, "bp": 1}, {"k": "val", "bl": 8, "bp": 2}], b"\x22\xf1"))
+    three = [{"k": "cc", "v": 1, "bl": 3, "bit": 5, "bp": 0}, {"k": "cc", "v": 1, "bl": 4, "bit": 1, "bp": 0},
+             {"k": "cc", "v": 0, "bl": 1, "bit": 0, "bp": 0}]             # 001 0001 0 = 0x22
+    for perm in itertools.permutations(three):
+        reqs.append(([dict(x) for x in perm] + [{"k": "val", "bl": 8, "bp": 1}], b"\x22"))
+    for k in ("cc", "pc"):                                               # half of the first byte is a VALUE
+        reqs.append(([hi(k), {"k": "val", "bl": 4, "bit": 0, "bp": 0}, {"k": "cc", "v": 0xF1, "bl": 8, "bp": 1}], b""))
+        reqs.append(([lo(k), {"k": "val", "bl": 4, "bit": 4, "bp": 0}, {"k": "cc", "v": 0xF1, "bl": 8, "bp": 1}], b""))
+    c22, cf1 = {"k": "cc", "v": 0x22, "bl": 8}, {"k": "cc", "v": 0xF1, "bl": 8}
+    for k in ("cc", "pc"):
+        a, b = dict(c22, k=k), dict(cf1)
+        reqs.append(([dict(a, bp=0), dict(b, bp=1), {"k": "val", "bl": 8, "bp": 2}], b"\x22\xf1"))
+        reqs.append(([dict(b, bp=1), dict(a, bp=0), {"k": "val", "bl": 8, "bp": 2}], b"\x22\xf1"))
+        reqs.append(([dict(a), dict(b, bp=1), {"k": "val", "bl": 8}], b"\x22\xf1"))
+        reqs.append(([dict(b, bp=1), dict(a, bp=0), {"k": "val", "bl": 8, "bp": 2}, {"k": "val", "bl": 8}], b"\x22\xf1"))
+        # a gap behind the first byte which a later VALUE fills: the prefix ends in front of the gap
+        reqs.append(([dict(a), dict(b, bp=2), {"k": "val", "bl": 8, "bp": 1}], b"\x22"))
+        reqs.append(([dict(b, bp=2), dict(a, bp=0), {"k": "val", "bl": 8, "bp": 1}], b"\x22"))
+        for bo in (None, "lh"):
+            w16 = _spell(b"\xf1\x02", k, bo)
+            reqs.append(([dict(w16, bp=1), dict(c22, bp=0), {"k": "val", "bl": 8, "bp": 3}], b"\x22\xf1\x02"))
+            w16 = _spell(b"\x22\xf1", k, bo)
+            reqs.append(([dict(cf1, v=2, bp=2), dict(w16, bp=0), {"k": "val", "bl": 8, "bp": 3}], b"\x22\xf1\x02"))
+            reqs.append(([dict(w16, bp=0, bit=0), dict(cf1, v=2), {"k": "val", "bl": 8}], b"\x22\xf1\x02"))
+    rng.shuffle(reqs)
+    out = []
+    for i in range(0, len(reqs), 3):
+        svcs, meta = [], {}
+        for j, (params, w) in enumerate(reqs[i:i + 3]):
+            name = f"P{i + j}"
+            sv = _enum_service(name, [], w or b"\x22\xf1")
+            sv["req"]["params"] = params
+            n = len(plain_bytes(sv["req"]))
+            sv["pos"][0]["params"][1] = {"k": "mr", "pos": n - 1, "len": 1}
+            svcs.append(sv)
+            meta[name] = (w, 0)
+        svcs.append(_enum_service(f"Q{i}a", [_spell(b"\x22"), _spell(b"\x02")], b"\x22\x02"))
+        svcs.append(_enum_service(f"Q{i}b", [_spell(b"\x23\xf1", bo="lh")], b"\x23\xf1"))
+        meta[f"Q{i}a"], meta[f"Q{i}b"] = (b"\x22\x02", 0), (b"\x23\xf1", 0)
+        out.append(({"services": svcs, "gnrs": [ENUM_GNR]}, meta))
+    return out
+
+
+def enum_cases(desc, view, rng):
+    """the messages of an enumerated layer: per service its request written down from the description and through the real
+    encoder, the request with the bytes of its leading constants reversed / rotated / first byte exchanged for each of the other
+    prefix bytes (what a wrong byte order, a wrong listing order, a wrong nibble would expect), truncations; its responses as
+    answers to it and to the reversed request.  Same tuple format as the corpus cases."""
+    cases, seen = [], set()
+
+    def add(op, m, rq, tag, exp):
+        key = (op, bytes(m), None if rq is None else bytes(rq))
+        if key not in seen and len(m) <= 12:
+            seen.add(key)
+            cases.append((op, bytes(m), None if rq is None else bytes(rq), tag, exp))
+
+    by_name = {s.short_name: s for s in view.services}
+    for sd in desc["services"]:
+        s = by_name[sd["name"]]
+        sn, rcn = view.sno[id(s)], view.cno[id(s.request)]
+        rq = plain_bytes(sd["req"], rng=rng)
+        add("decode", rq, None, "own-request", [(sn, rcn)])
+        try:
+            vals = {f"p{i}": rng.getrandbits(p["bl"]) for i, p in enumerate(sd["req"]["params"]) if p["k"] == "val"}
+            add("decode", bytes(s.request.encode(**vals)), None, "own-request", [(sn, rcn)])
+        except Exception:
+            pass
+        pre = desc_prefix(sd["req"]["params"]) or rq[:2]
+        n = len(pre)
+        alts = {pre[::-1] + rq[n:], pre[1:] + pre[:1] + rq[n:], rq[:1], rq[:n],
+                bytes([(rq[0] & 0xF0) >> 4 | (rq[0] & 0x0F) << 4]) + rq[1:]}
+        for b in set(pre[1:]):
+            alts.add(bytes([b]) + rq[1:])
+        for m in sorted(alts):
+            add("decode", m, None, "mutated", None)
+        for rd, ro in zip(sd["pos"] + sd["neg"], list(s.positive_responses) + list(s.negative_responses)):
+            for j in range(2 if any(p["k"] == "nrc" for p in rd["params"]) else 1):
+                e = plain_bytes(rd, rq, rng, nrc_pick=j)
+                add("decode", e, None, "own-response", [(sn, view.cno[id(ro)])])
+                add("response", e, rq, "pair", (sn, view.cno[id(ro)]))
+                add("response", e, pre[::-1] + rq[n:], "pair", None)
+        for gd in desc["gnrs"]:
+            add("response", plain_bytes(gd, rq, rng), rq, "pair", None)
+    return cases
+
+
 def _inherit(inherited, excluded, local):
     """value inheritance for one kind of object, entries (owner layer, description): the inherited objects whose short name
     is not excluded, in their order, each replaced by the local object of the same short name if there is one, followed by
@@ -429,22 +707,47 @@ def desc_verdict(c, msg, strict):
                     library reports this through odxraise, i.e. it is tolerated in non-strict mode just as a
                     CODED-CONST mismatch is only a warning in both modes; the leading constants are what the
                     constant-prefix filters of the dispatcher look at)
-    Parameters follow each other without gaps (no explicit positions), integers are big endian."""
-    pos = 0
+    A parameter starts at its BYTE-POSITION if it has one, else behind the preceding one; integers have the byte order of their
+    coding (`const_bytes`)."""
+    comp = _VERDICT_CACHE.get(id(c))
+    if comp is None or comp[0] is not c:
+        comp = (c, _compile_verdict(c))
+        _VERDICT_CACHE[id(c)] = comp          # (keeps c alive, so its id is not reused)
+    cur, end = 0, len(msg)
+    for k, bp, n, sub, want in comp[1]:
+        pos = cur if bp is None else bp
+        if pos + n > end:
+            return "too-short"
+        if want is not None:
+            got = bytes(msg[pos:pos + n]) if sub is None else (msg[pos] >> sub[0]) & sub[1]
+            if got not in want:
+                if k == "nrc":
+                    return "nrc-const"
+                if strict:
+                    return "phys-const"
+        cur = pos + n
+    return None
+
+
+_VERDICT_CACHE = {}
+
+
+def _compile_verdict(c):
+    """per parameter which occupies bytes: (kind, BYTE-POSITION | None, number of bytes, (bit position, value mask) | None for
+    whole bytes, the admissible wire values of an NRC-CONST / PHYS-CONST | None)"""
+    out = []
     for p in c["params"]:
         k = p["k"]
-        n = p["len"] if k == "mr" else p["bl"] // 8
+        n = p["len"] if k == "mr" else (p["bl"] + p.get("bit", 0) + 7) // 8
         if n == 0:
             continue
-        if pos + n > len(msg):
-            return "too-short"
-        v = int.from_bytes(msg[pos:pos + n], "big")
-        if k == "nrc" and v not in p["vals"]:
-            return "nrc-const"
-        if k == "pc" and strict and v != p["v"]:
-            return "phys-const"
-        pos += n
-    return None
+        sub = (p.get("bit", 0), (1 << p["bl"]) - 1) if k != "mr" and (p["bl"] % 8 or p.get("bit", 0)) else None
+        want = None
+        if k in ("nrc", "pc"):
+            vals = p["vals"] if k == "nrc" else [p["v"]]
+            want = {x % (1 << p["bl"]) for x in vals} if sub else {const_bytes(p, x) for x in vals}
+        out.append((k, p.get("bp"), n, sub, want))
+    return out
 
 
 # ---------------------------------------------------------------- the loaded layer as seen by the model
@@ -477,7 +780,9 @@ class View:
                 self._reg(co)
         for g in self.ghost_gnrs:
             self._reg(g)
-        self.pdesc = {n: self._params(co) for n, co in self.cobj.items()}
+        self._dpre = {}
+        self.cbytes = {}          # coding number → per parameter: the bytes a constant encodes to on its own | None
+        self.pdesc = {n: self._params(co, n) for n, co in self.cobj.items()}
 
     def _reg(self, co):
         if id(co) not in self.cno:
@@ -485,23 +790,39 @@ class View:
             self.cno[id(co)] = n
             self.cobj[n] = co
 
-    def _params(self, co):
+    def _params(self, co, n=None):
         from odxtools.encodestate import EncodeState
-        out = []
+        out, cb = [], []
         for p in co.parameters:
+            cb.append(None)
             if isinstance(p, (self._cc, self._pc)):
                 # the bytes this parameter encodes to on its own (an input of the model)
                 try:
                     st = EncodeState(coded_message=bytearray(), triggering_request=b"")
                     p.encode_into_pdu(physical_value=None, encode_state=st)
                     out.append(f"(c {bytes(st.coded_message).hex() or '-'})")
-                except Exception:
+                    cb[-1] = bytes(st.coded_message)
+                except Exception as e:
                     out.append("(o)")
+                    cb[-1] = "foreign:" + type(e).__name__
             elif isinstance(p, self._mr):
                 out.append(f"(m {p.request_byte_position} {p.byte_length})")
             else:
                 out.append("(o)")
+        if n is not None:
+            self.cbytes[n] = cb
         return " ".join(out)
+
+    def dprefix(self, s, n):
+        """constant prefix of coding object n used for service s (None for its request prefix), read off the description (cached)"""
+        key = (id(s), n)
+        if key not in self._dpre:
+            rq = self.cno.get(id(s.request)) if s is not None and s.request is not None else None
+            if n is None:
+                self._dpre[key] = desc_prefix(self.cdesc[rq]["params"]) if rq is not None else b""
+            else:
+                self._dpre[key] = desc_prefix(self.cdesc[n]["params"], self.dprefix(s, None))
+        return self._dpre[key]
 
     def kind(self, n):
         co = self.cobj.get(n)
@@ -566,6 +887,47 @@ def make_view(desc):
     v.cdesc = {n: by_obj[id(co)] for n, co in v.cobj.items() if id(co) in by_obj}
     v.expected = (es, eg)
     return v
+
+
+def positioned(desc):
+    """does a coding object of the description use a BYTE-POSITION / BIT-POSITION other than 0 or sub-byte parameters (outside
+    the envelope of the Lean model: such layers are evaluated by the description-level oracles only)"""
+    for _, _, d in chain(desc.get("all", desc)):
+        for sd in d["services"]:
+            for c in [sd["req"]] + sd["pos"] + sd["neg"] + d["gnrs"]:
+                if not isinstance(c, str) and any(p.get("bp") or p.get("bit") or p.get("bl", 8) % 8 for p in c["params"]):
+                    return True
+    return False
+
+
+def desc_reply(view, msg, walk, strict):
+    """What the Lean driver answers for a decode line (Spec `attributed`, `Unambiguous`, `Found`), computed from the JSON
+    description alone: constant prefixes by `desc_prefix`, "parameters match" by `desc_verdict`.  → dict(cands=[service no]
+    (ascending, as a set), res=None, attr={service no: [(coding no, prefix hex | '-')]}, unamb=bool) | None if a coding
+    object of the layer has no description"""
+    attr, cands, unamb = {}, [], True
+    gn = [view.cno[id(g)] for g in view.gnrs]
+    for s in view.services:
+        sn = view.sno[id(s)]
+        own = [view.cno[id(co)] for co in ([s.request] if s.request is not None else [])
+               + list(s.positive_responses) + list(s.negative_responses)]
+        if any(n not in view.cdesc for n in own + gn):
+            return None
+        row, nown, found = [], 0, False
+        for i, n in enumerate(own + gn):
+            cd = view.cdesc[n]
+            pre = view.dprefix(s, n)
+            if pre and walk[:len(pre)] == pre:
+                found = True
+            if msg[:len(pre)] == pre and desc_verdict(cd, msg, strict) is None:
+                row.append((n, pre.hex() or "-"))
+                nown += i < len(own)
+        if row:
+            attr[sn] = row
+        if found:
+            cands.append(sn)
+        unamb = unamb and nown <= 1
+    return {"cands": cands, "res": None, "attr": attr, "unamb": unamb, "modelfree": True}
 
 
 def impl_contents(view):
